@@ -13,6 +13,7 @@ RULE = ("forward + round trip: all 2^24 colours (thorough) / 2^20 stratified + a
         "OKLab with the published definition (either published route, 2e-5), ranges L in [0,1], C>=0, H in [0,360), exact round trip, "
         "safe == plain; inverse: (L,C<=0.5,H) grid + random + gamut-boundary points -> three ints 0..255 within 1 unit of the oracle's "
         "clip-and-round, achromatic axis rules; safe variants on invalid triples (finite out-of-range, nan/inf) still return valid values; "
+        "round trips from 8 threads at once (switch interval 1 us) against single-threaded reference values; "
         "the _safe contracts also fire on every candidate of an optimiser side workload. Non-trivial = every distinct colour/triple judged.")
 ASSUMPTIONS = ["oracles/oklab.py: Ottosson's published matrices, inverses computed numerically, self-tested on the published example rows",
                "'L=0 black' is demanded on the achromatic axis only: the published definition + clipping gives (20,0,0) for (0,0.3,0deg)"]
